@@ -437,24 +437,96 @@ def check_unit_recursion(ctx, rule, func, what):
 def guarded_actions(ctx, func, stmts, base=frozenset()):
     """[(guard atoms, statement, value expr)] of the simple statements of a
     block: nested `if`s contribute their (canonical) atoms, a conditional
-    expression at the top of a statement's value is split into its two
-    alternatives.  Loops / with / try are returned as opaque statements."""
+    expression at the top of a statement's value (or as the single argument
+    of a call statement) is split into its two alternatives, and what
+    follows an `if` whose branch leaves the block (continue / break /
+    return / raise) runs under the negated test -- so an if/else and a
+    guard clause read the same.  A trailing `continue` is not an action.
+    Loops / with / try are returned as opaque statements."""
     out = []
+    base = frozenset(base)
+
+    def leaves(blk):
+        blk = real_stmts(blk)
+        return bool(blk) and isinstance(blk[-1], (ast.Continue, ast.Break,
+                                                  ast.Return, ast.Raise))
     for st in stmts:
         if isinstance(st, ast.If):
-            out += guarded_actions(ctx, func, st.body,
-                                   base | frozenset(catoms(ctx, func, st.test, True)))
-            out += guarded_actions(ctx, func, st.orelse,
-                                   base | frozenset(catoms(ctx, func, st.test, False)))
+            tg = frozenset(catoms(ctx, func, st.test, True))
+            fg = frozenset(catoms(ctx, func, st.test, False))
+            out += guarded_actions(ctx, func, st.body, base | tg)
+            out += guarded_actions(ctx, func, st.orelse, base | fg)
+            b_out, e_out = leaves(st.body), leaves(st.orelse)
+            if b_out and e_out:
+                break
+            if b_out:
+                base = base | fg
+            elif e_out:
+                base = base | tg
+            continue
+        if isinstance(st, ast.Continue):
             continue
         v = getattr(st, "value", None)
         if isinstance(st, (ast.AugAssign, ast.Assign, ast.Return, ast.Expr)) and \
                 isinstance(v, ast.IfExp):
             for pol, alt in ((True, v.body), (False, v.orelse)):
                 out.append((base | frozenset(catoms(ctx, func, v.test, pol)), st, alt))
+        elif isinstance(st, ast.Expr) and isinstance(v, ast.Call) and \
+                len(v.args) == 1 and not v.keywords and isinstance(v.args[0], ast.IfExp):
+            ie = v.args[0]
+            for pol, alt in ((True, ie.body), (False, ie.orelse)):
+                c2 = ast.Call(func=v.func, args=[alt], keywords=[])
+                ast.copy_location(c2, v)
+                out.append((base | frozenset(catoms(ctx, func, ie.test, pol)), st, c2))
         else:
             out.append((base, st, v))
     return out
+
+
+def forall_form(ctx, func):
+    """A function that returns whether a predicate holds for every item of
+    an iterable: (iterable expr, item variable, predicate expr, polarity,
+    node) -- `return all(map(lambda x: P, IT))`, `return all(P for x in IT)`,
+    `return not any(..)`, or `for x in IT: if not P: return False` followed
+    by `return True`.  None when the function is not of that shape."""
+    body = [b for b in real_stmts(func.body) if not isinstance(b, ast.Assert)
+            and not (isinstance(b, ast.Expr) and isinstance(b.value, ast.Constant))]
+    if not body:
+        return None
+    last = body[-1]
+    if len(body) == 1 and isinstance(last, ast.Return) and last.value is not None:
+        v, pol = last.value, True
+        if isinstance(v, ast.UnaryOp) and isinstance(v.op, ast.Not):
+            v, pol = v.operand, False
+        if isinstance(v, ast.Call) and isinstance(v.func, ast.Name) and \
+                v.func.id in ("all", "any") and len(v.args) == 1 and not v.keywords:
+            # all(P) == forall P ; not any(Q) == forall not Q
+            if (v.func.id == "all") != pol:
+                return None
+            inner_pol = pol
+            a = v.args[0]
+            if isinstance(a, ast.Call) and text(a.func) == "map" and len(a.args) == 2 \
+                    and isinstance(a.args[0], ast.Lambda) and len(a.args[0].args.args) == 1:
+                return (a.args[1], a.args[0].args.args[0].arg, a.args[0].body,
+                        inner_pol, last)
+            if isinstance(a, (ast.GeneratorExp, ast.ListComp)) and len(a.generators) == 1 \
+                    and not a.generators[0].ifs and isinstance(a.generators[0].target, ast.Name):
+                return (a.generators[0].iter, a.generators[0].target.id, a.elt,
+                        inner_pol, last)
+        return None
+    if len(body) == 2 and isinstance(body[0], ast.For) and not body[0].orelse and \
+            isinstance(last, ast.Return) and isinstance(last.value, ast.Constant) and \
+            last.value.value is True and isinstance(body[0].target, ast.Name):
+        lb = real_stmts(body[0].body)
+        if len(lb) == 1 and isinstance(lb[0], ast.If) and not lb[0].orelse:
+            ib = real_stmts(lb[0].body)
+            if len(ib) == 1 and isinstance(ib[0], ast.Return) and \
+                    isinstance(ib[0].value, ast.Constant) and ib[0].value.value is False:
+                t, pol = lb[0].test, False      # `if T: return False` == forall not T
+                while isinstance(t, ast.UnaryOp) and isinstance(t.op, ast.Not):
+                    t, pol = t.operand, not pol
+                return (body[0].iter, body[0].target.id, t, pol, body[0])
+    return None
 
 
 def T(text_, pol=True):
@@ -500,6 +572,43 @@ def dnf(test, pol=True, limit=64):
         out = [d for d in out if not any((t, not q) in d for t, q in d)]
         return out if len(out) <= limit else None
     return [frozenset([(text(test).replace(" ", ""), pol)])]
+
+
+def cdnf(ctx, func, test, pol=True, limit=64):
+    """dnf() over canonical atoms (catom, no inlining): a list of frozensets
+    of atoms, None beyond `limit` disjuncts."""
+    if isinstance(test, ast.UnaryOp) and isinstance(test.op, ast.Not):
+        return cdnf(ctx, func, test.operand, not pol, limit)
+    if isinstance(test, ast.BoolOp):
+        is_and = isinstance(test.op, ast.And) == pol
+        parts = [cdnf(ctx, func, v, pol, limit) for v in test.values]
+        if any(p is None for p in parts):
+            return None
+        if not is_and:
+            out = [d for p in parts for d in p]
+        else:
+            out = [frozenset()]
+            for p in parts:
+                out = [a | b for a in out for b in p]
+                if len(out) > limit:
+                    return None
+        return out if len(out) <= limit else None
+    return [frozenset([catom(ctx, func, test, pol, False)])]
+
+
+def guard_dnf(ctx, func, stmt, stop=None, asserts=False, limit=64):
+    """The condition under which `stmt` runs (structural guards up to
+    `stop`), in DNF over canonical atoms: list of frozensets, or None."""
+    from .cfg import guards as _guards
+    out = [frozenset()]
+    for t, pol in _guards(stmt, stop=stop, asserts=asserts):
+        d = cdnf(ctx, func, t, pol, limit)
+        if d is None:
+            return None
+        out = [a | b for a in out for b in d]
+        if len(out) > limit:
+            return None
+    return out
 
 
 def bool_dnf(ctx, func, test, pol=True, depth=0, limit=64):
